@@ -221,8 +221,100 @@ def program_case(mode, nops):
                 wall_s=1200)
 
 
+class _PosixFile:
+    """a local file object opened in binary mode (what StubSFTPHandle.readfile/writefile are): one position shared by reads
+    and writes; in append mode every write goes to the end of the file and leaves the position there"""
+
+    def __init__(self, data, append):
+        self.data, self.append, self.pos = data, append, 0
+
+    def tell(self):
+        return self.pos
+
+    def seek(self, off, whence=0):
+        self.pos = off
+
+    def read(self, n):
+        out = self.data[self.pos:self.pos + n]
+        self.pos += len(out)
+        return out
+
+    def write(self, d):
+        if self.append:
+            self.pos = len(self.data)
+        if self.pos > len(self.data):
+            self.data = self.data + b"\0" * (self.pos - len(self.data))
+        self.data = self.data[:self.pos] + d + self.data[self.pos + len(d):]
+        self.pos += len(d)
+
+    def flush(self):
+        pass
+
+
+def handle_case(nops):
+    """server side: the default SFTPHandle.read/write over one local file object are positional reads and writes
+    (pread/pwrite; appends go to the end), whatever the order of requests"""
+    def fn(ctx):
+        import os
+        from paramiko.sftp_handle import SFTPHandle
+        from paramiko.sftp import SFTP_OK
+        append = ctx.flag("opened-for-append")
+        tmp = None
+        if ctx.symbolic:
+            f = _PosixFile(b"abcd", append)
+            content = lambda: f.data
+        else:
+            # the replay runs over a real local file opened the way StubSFTPServer opens it
+            tmp = tempfile.mkdtemp(prefix="c27h")
+            path = os.path.join(tmp, "f")
+            with open(path, "wb") as g:
+                g.write(b"abcd")
+            f = open(path, "a+b" if append else "r+b")
+            f.seek(0)
+
+            def content():
+                with open(path, "rb") as g:
+                    return g.read()
+        h = SFTPHandle(os.O_RDWR | (os.O_APPEND if append else 0))
+        h.readfile = h.writefile = f
+        ref = b"abcd"
+        try:
+            _handle_ops(ctx, h, content, ref, append, nops)
+        finally:
+            if tmp is not None:
+                f.close()
+                import shutil
+                shutil.rmtree(tmp, ignore_errors=True)
+    return Case("server-handle-%dops" % nops, fn, ["handle-read-returns-the-file's-bytes-at-the-requested-offset",
+                                                 "handle-write-puts-the-data-at-the-requested-offset(or-at-the-end-when-appending)"],
+                {"requests": nops, "offsets": "0..6 (solver variable)", "append": "on/off", "file": "4 bytes"}, max_paths=400000, wall_s=900)
+
+
+def _handle_ops(ctx, h, content, ref, append, nops):
+    from paramiko.sftp import SFTP_OK
+    if True:
+        for i in range(nops):
+            if ctx.flag("op%d-is-a-write" % i):
+                off = ctx.int("op%d.offset" % i, 0, 6)
+                off = ctx.E.enumerate(lift(off), 8) if ctx.symbolic else off
+                d = bytes([65 + i])
+                r = h.write(off, d)
+                at = len(ref) if append else off
+                if at > len(ref):
+                    ref = ref + b"\0" * (at - len(ref))
+                ref = ref[:at] + d + ref[at + len(d):]
+                ctx.prove(r == SFTP_OK and content() == ref, "handle-write-puts-the-data-at-the-requested-offset(or-at-the-end-when-appending)")
+            else:
+                off = ctx.int("op%d.offset" % i, 0, 6)
+                off = ctx.E.enumerate(lift(off), 8) if ctx.symbolic else off
+                n = ctx.choice("op%d.len" % i, [1, 3])
+                got = h.read(off, n)
+                ctx.prove(got == ref[off:off + n], "handle-read-returns-the-file's-bytes-at-the-requested-offset")
+
+
 def cases(tier):
     n = _validate_reference()
     cs = [program_case(m, 2 if tier == "quick" else 3) for m in MODES]
     cs[0].bounds["reference_model_validated_on"] = "%d two-operation programs against real local files" % n
+    cs.append(handle_case(3 if tier == "quick" else 4))
     return cs
